@@ -1209,3 +1209,181 @@ func phiCarries(v, e ssa.Value) bool {
 	}
 	return false
 }
+
+// ---- R29: gorgonia iterator protocol ---------------------------------------------------------------
+//
+// Audited in gorgonia.org/tensor@v0.9.24 iterator.go: FlatIterator.Start() is Reset() followed by Next(), and
+// Coord() reports the position the iterator has advanced to. The element loops of gonnx read Coord() and then
+// call Next(): they have to begin with Reset() (or a fresh iterator), never with Start(), and inside an
+// iteration Coord() is read before Next() - otherwise coordinate 0 is never visited (and the walk ends one early).
+func ruleIteratorProtocol(c *Ctx, prop string) {
+	var roots []*ssa.Function
+	for _, name := range opsOfProp(prop) {
+		if oi := c.opByName(name); oi != nil {
+			roots = append(roots, oi.methods["Apply"])
+		}
+	}
+	if prop == "C03" || prop == "C16" {
+		for _, f := range c.libFns {
+			if fnPkgPath(f) == pkgOps && f.Parent() == nil && (f.Name() == "ApplyBinaryOperation" || f.Name() == "Div" || f.Name() == "And" || f.Name() == "Or" || f.Name() == "Xor") {
+				roots = append(roots, f)
+			}
+		}
+	}
+	var fns []*ssa.Function
+	for f := range c.reachFrom(roots) {
+		if isLibFn(f) {
+			fns = append(fns, f)
+		}
+	}
+	sort.Slice(fns, func(i, j int) bool { return fname(fns[i]) < fname(fns[j]) })
+	n := 0
+	for _, f := range fns {
+		byIter := map[ssa.Value]map[string][]*ssa.Call{}
+		for _, b := range f.Blocks {
+			for _, in := range b.Instrs {
+				cl, ok := in.(*ssa.Call)
+				if !ok || !cl.Common().IsInvoke() {
+					continue
+				}
+				nm := cl.Common().Method.Name()
+				if nm != "Coord" && nm != "Next" && nm != "Start" && nm != "Reset" {
+					continue
+				}
+				if p := cl.Common().Method.Pkg(); p == nil || p.Path() != pkgTensor {
+					continue
+				}
+				it := cl.Common().Value
+				if byIter[it] == nil {
+					byIter[it] = map[string][]*ssa.Call{}
+				}
+				byIter[it][nm] = append(byIter[it][nm], cl)
+			}
+		}
+		k := 0
+		for _, calls := range byIter {
+			if len(calls["Coord"]) == 0 {
+				continue
+			}
+			n++
+			k++
+			key := fmt.Sprintf("R29:iterator:%s#%d", fname(f), k)
+			bad, site := "", c.pos(calls["Coord"][0].Pos())
+			if len(calls["Start"]) > 0 {
+				bad = "the element loop begins with iterator.Start(), which already advances the iterator: the first Coord() read is element 1, coordinate 0 is never visited (and a one-element tensor is skipped entirely)"
+				site = c.pos(calls["Start"][0].Pos())
+			}
+			for _, co := range calls["Coord"] {
+				for _, nx := range calls["Next"] {
+					lb := map[*ssa.BasicBlock]bool{}
+					for d := co.Block(); d != nil; d = d.Idom() {
+						if l := loopBlocks(d); len(l) > 1 && l[co.Block()] && l[nx.Block()] {
+							lb = l
+							break
+						}
+					}
+					if len(lb) == 0 {
+						continue
+					}
+					before := nx.Block() == co.Block() && instrBefore(nx, co)
+					if before || (nx.Block() != co.Block() && nx.Block().Dominates(co.Block()) && !isLoopHeaderOf(nx.Block(), lb)) {
+						bad = "Coord() is read after Next() within one iteration: every element is paired with the coordinate of its successor"
+						site = c.pos(co.Pos())
+					}
+				}
+			}
+			c.decide(bad == "", "R29", key, site, "Coord() is read before Next() and the walk starts at the reset position", bad)
+		}
+	}
+	c.counts["R29.iterator_loops"] = n
+	if n == 0 {
+		c.note("R29", "R29:iterator:none", "", "no coordinate-iterator loop behind this property")
+	}
+}
+
+func isLoopHeaderOf(b *ssa.BasicBlock, lb map[*ssa.BasicBlock]bool) bool {
+	for _, p := range b.Preds {
+		if lb[p] && b.Dominates(p) {
+			return true
+		}
+	}
+	return false
+}
+
+// ---- R30: flat positions are unravelled from the last axis -------------------------------------------
+//
+// gorgonia tensors (and every []T backing gonnx builds) are row-major: position n of the backing has the
+// coordinates obtained by taking n % extent, n / extent from the LAST axis to the first. A hand-written
+// unravelling loop that walks the shape forwards yields column-major coordinates: right for vectors and for
+// shapes with one non-unit axis, permuted data otherwise.
+func ruleUnravelOrder(c *Ctx, prop string) {
+	var roots []*ssa.Function
+	for _, name := range opsOfProp(prop) {
+		if oi := c.opByName(name); oi != nil {
+			roots = append(roots, oi.methods["Apply"])
+		}
+	}
+	reach := c.reachFrom(roots)
+	var fns []*ssa.Function
+	for f := range reach {
+		if isLibFn(f) {
+			fns = append(fns, f)
+		}
+	}
+	fns = append(fns, c.ctlFns...)
+	sort.Slice(fns, func(i, j int) bool { return fname(fns[i]) < fname(fns[j]) })
+	n := 0
+	ctlBad, ctlGood := StDischarged, StDischarged
+	for _, f := range fns {
+		for _, l := range loopsOf(f) {
+			if l.idx == nil || l.start != 0 {
+				continue
+			}
+			// inside an ascending loop over i: x % shape[i] stored at position i, and x replaced by x / shape[i]
+			var remPhi *ssa.Phi
+			for _, in := range l.hdr.Instrs {
+				phi, ok := in.(*ssa.Phi)
+				if !ok || !isIntType(phi.Type()) {
+					continue
+				}
+				for _, e := range phi.Edges {
+					if q, ok := e.(*ssa.BinOp); ok && q.Op == token.QUO && q.X == ssa.Value(phi) {
+						remPhi = phi
+					}
+				}
+			}
+			if remPhi == nil {
+				continue
+			}
+			for b := range loopBlocks(l.hdr) {
+				for _, in := range b.Instrs {
+					st, ok := in.(*ssa.Store)
+					if !ok {
+						continue
+					}
+					ia, ok := st.Addr.(*ssa.IndexAddr)
+					rm, isRem := st.Val.(*ssa.BinOp)
+					if !ok || !isRem || rm.Op != token.REM || rm.X != ssa.Value(remPhi) || ia.Index != l.idx {
+						continue
+					}
+					n++
+					if isControlFn(f) {
+						if f.Name() == "BadUnravel" {
+							ctlBad = StViolated
+						} else {
+							ctlGood = StViolated
+						}
+						continue
+					}
+					c.violate("R30", "R30:unravel-order:"+fname(f), c.pos(st.Pos()),
+						"a flat position is turned into coordinates by taking % and / from the FIRST axis onwards: that is column-major, the backings are row-major - for an index or data tensor with two axes larger than one the elements land at permuted positions")
+				}
+			}
+		}
+	}
+	c.add(Obligation{Rule: "R30", Key: "R30:ctl:bad:BadUnravel", Status: ctlBad, Control: true, Why: "control: forward unravelling"})
+	c.add(Obligation{Rule: "R30", Key: "R30:ctl:good:GoodUnravel", Status: ctlGood, Control: true, Why: "control: backward unravelling"})
+	c.wantControls = append(c.wantControls, "R30:ctl:bad:BadUnravel")
+	c.counts["R30.unravel_loops"] = n
+	c.discharge("R30", "R30:unravel-order:scan", "", fmt.Sprintf("%d functions behind this property scanned for forward unravelling loops (positive control BadUnravel reported, GoodUnravel silent)", len(fns)-len(c.ctlFns)))
+}
